@@ -48,6 +48,35 @@ def encode_mappings(tokens):
     return ";".join(out)
 
 
+def encode_range_mappings(tokens, pick):
+    """the "rangeMappings" string: per generated line a little-endian bit vector, 6 bits per base64 digit,
+    bit i = the i-th segment of that line is a range token"""
+    lines = {}
+    for t in tokens:
+        lines.setdefault(t[0], []).append(t)
+    out = []
+    for ln in range((max(lines) if lines else -1) + 1):
+        ts = sorted(lines.get(ln, []), key=lambda x: x[1])
+        bits = [i for i, t in enumerate(ts) if pick(ln, i, len(ts), t)]
+        digits = [0] * ((max(bits) // 6 + 1) if bits else 0)
+        for b in bits:
+            digits[b // 6] |= 1 << (b % 6)
+        out.append("".join(B64[d] for d in digits))
+    return ";".join(out)
+
+
+def decode_range_mappings(rm):
+    """-> set of (line, segment index)"""
+    out = set()
+    for ln, part in enumerate((rm or "").split(";")):
+        for k, ch in enumerate(part):
+            d = B64.index(ch)
+            for b in range(6):
+                if d >> b & 1:
+                    out.add((ln, 6 * k + b))
+    return out
+
+
 def rand_orig_map(rng, text, style):
     """an original map for the (intermediate) file `text`; returns (json_text, tokens with effective names)"""
     lines = text.split("\n")
@@ -72,6 +101,13 @@ def rand_orig_map(rng, text, style):
                 toks.append((ln, c, rng.randrange(len(sources)), rng.randrange(0, 40), rng.randrange(0, 60),
                              rng.randrange(len(names)) if r > 0.7 else None))
     m = {"version": 3, "sources": sources, "names": names, "mappings": encode_mappings(toks)}
+    if style != "late" and rng.random() < 0.25:
+        # range tokens ("rangeMappings"): a token maps its whole run of columns, column by column.  Never the
+        # last token of a line (sourcemap 8.0.1 subtracts columns across lines for a lookup that falls back
+        # to it from a later line) and never a 1-field token
+        rm = encode_range_mappings(toks, lambda ln, i, n, t: i < n - 1 and t[2] is not None and rng.random() < 0.6)
+        if rm.strip(";"):
+            m["rangeMappings"] = rm
     if root is not None:
         m["sourceRoot"] = root
     if rng.random() < 0.3:
@@ -101,6 +137,14 @@ def effective_tokens(m):
                         "src": join_root(root, srcs[s]) if 0 <= s < len(srcs) else "<bad source index>",
                         "sl": sl, "sc": sc, "name": name})
     out.sort(key=lambda t: (t["gl"], t["gc"]))
+    if m.get("rangeMappings"):
+        ranges = decode_range_mappings(m["rangeMappings"])
+        idx = {}
+        for t in out:               # (maps made here have one token per generated position, in order)
+            i = idx.get(t["gl"], 0)
+            idx[t["gl"]] = i + 1
+            if (t["gl"], i) in ranges:
+                t["rng"] = True
     return out
 
 
@@ -345,6 +389,8 @@ def run(seed, tier, extra_cases=None, use_cache=True):
         models["MC_Reader"] = vlib.run_model("MC_Reader", "MC_Reader.cfg", workers=1, timeout=300)
         models["MC_Chain"] = vlib.run_model("MC_Chain", "MC_Chain_fixed.cfg" if tier == "quick" else "MC_Chain_fixed_big.cfg",
                                             workers=8, timeout=3000)
+        models["MC_Chain_ranges"] = vlib.run_model("MC_Chain", "MC_Chain_ranges.cfg" if tier == "quick" else "MC_Chain_ranges_big.cfg",
+                                                   workers=8, timeout=3000)
     cs = extra_cases if extra_cases is not None else cases(seed, tier, models["MC_Reader"]["replays"])
     # batches: driver -> records -> ND-JSON chunk files (a thorough run has ~100 000 cases x 2 calls)
     os.makedirs(vlib.WORK, exist_ok=True)
